@@ -18,12 +18,26 @@ BASE_TRUSTED = [
 ]
 
 
+def valid_case(case):
+    """cases outside the properties' quantifiers must never be generated, kept in the corpus or produced by shrinking:
+    a FASTQ record without bases is not well-formed input (bio's reader rejects it)"""
+    p = case.split(" ")
+    cont = {"ofile": 8, "cgrfile": 4, "ocgrfile": 6, "ctr": 5, "cov": 8, "s2m": 4, "m2s": 4, "cli": 3}.get(p[0])
+    recs = {"ofile": 10, "cgrfile": 5, "ocgrfile": 7, "ctr": 6, "cov": 9, "s2m": 5, "m2s": 5, "cli": 4}.get(p[0])
+    if p[0] == "hooks": return valid_case(" ".join(p[1:]))
+    if p[0] == "hist":
+        return all(valid_case("cli " + " ".join(p[i:i + 5])) for i in range(2, len(p), 5))
+    if cont is not None and len(p) > max(cont, recs) and p[cont].startswith("fq"):
+        if any(x == "-" for x in p[recs].split(",")): return False
+    return True
+
+
 def corpus_lines(prop):
     d = os.path.join(ROOT, "corpus", prop)
     out = []
     if os.path.isdir(d):
         for f in sorted(os.listdir(d)):
-            out += [l for l in open(os.path.join(d, f)).read().splitlines() if l and not l.startswith("#")]
+            out += [l for l in open(os.path.join(d, f)).read().splitlines() if l and not l.startswith("#") and valid_case(l)]
     return out
 
 
